@@ -215,7 +215,16 @@ func (nc *netConn) SetWriteDeadline(t time.Time) error {
 	} else {
 		dur := time.Until(t)
 		if dur <= 0 {
-			dur = 1
+			// The deadline has already passed. Expire now instead of racing a
+			// timer against the caller's next Write.
+			nc.writeTimer.Stop()
+			if !nc.writeMu.tryLock() {
+				nc.writeCancel()
+				return nil
+			}
+			atomic.StoreInt64(&nc.writeExpired, 1)
+			nc.writeMu.unlock()
+			return nil
 		}
 		nc.writeTimer.Reset(dur)
 	}
@@ -229,7 +238,16 @@ func (nc *netConn) SetReadDeadline(t time.Time) error {
 	} else {
 		dur := time.Until(t)
 		if dur <= 0 {
-			dur = 1
+			// The deadline has already passed. Expire now instead of racing a
+			// timer against the caller's next Read.
+			nc.readTimer.Stop()
+			if !nc.readMu.tryLock() {
+				nc.readCancel()
+				return nil
+			}
+			atomic.StoreInt64(&nc.readExpired, 1)
+			nc.readMu.unlock()
+			return nil
 		}
 		nc.readTimer.Reset(dur)
 	}
